@@ -1,7 +1,7 @@
 (* C08 — property theorems only.  Each is closed by [exact] of a lemma proved in C08/Proofs*.v
    and followed by Print Assumptions.  Constants, the footprint macro and the memory orders are
    those re-extracted from the code on this run (gen/Params_C08.v). *)
-From MV Require Import C08.Model C08.ProofsSeq C08.ProofsDrain gen.Params_C08.
+From MV Require Import C08.Model C08.ModelConc C08.ProofsSeq C08.ProofsDrain C08.ProofsConc gen.Params_C08.
 Local Open Scope Z_scope.
 
 (* tie of the literals used by the model to the headers: cache line size, header layout, and the
@@ -81,8 +81,48 @@ Theorem shm_drained_half_refuted :
     cal_cachelines nb <= n / 2 /\ 1 <= nb <= (CL / 2) * n /\ in_known_class n p nb = true /\
     (forall ops, Forall (fun o => o = OAlloc nb \/ o = OFetch) ops ->
        Forall (fun r => r = RAlloc None \/ r = RFetch None) (snd (run h ops))).
-Proof.
-  exists 8, wit_pre, 4, 100. destruct drained_half_witness as (A & B & C & D & E & F & G & K & L).
-  cbv zeta. repeat split; auto; try (vm_compute; (reflexivity || discriminate)).
-Qed.
+Proof. exact drained_half_witness. Qed.
 Print Assumptions shm_drained_half_refuted.
+
+(* ------------------------------------------------------------------ concurrent layer *)
+
+(* side condition on the memory orders the code passes at the cursor and lock sites (re-extracted
+   on this run): both stores of write_cursor release, the reader's load acquire, lock acquire/release *)
+Theorem shm_conc_memory_orders_sufficient : mo_sufficient code_params = true.
+Proof. vm_compute. reflexivity. Qed.
+Print Assumptions shm_conc_memory_orders_sufficient.
+
+(* FULL STATEMENTS (NOT PROVED; covered on every run by trace acceptance of the real code's schedules
+   by the extracted model, the model's ghost monitors on each accepted trace, and the independent
+   monitor, including a writer killed after each of its atomic operations):
+     shm_conc_inv_reachable : forall sched, mo_sufficient P = true ->
+        let s := exec csys (cstep P) (cinit n locked tries kill scripts) sched in
+        c_uncov s = 0 /\ c_overlap s = 0 /\ exists consumed, c_committed s = consumed ++ c_unread s /\
+        (c_delivered s = consumed \/ exists m rest, c_unread s = m :: rest /\ c_delivered s = consumed ++ [m])
+     shm_crash_safe : the same state followed by any reader-only schedule delivers only whole committed
+        messages, in order (corollary: a writer that stops is a schedule without further writer steps).
+   PROVED PART (frame half of crash safety, for EVERY state, reachable or not): once only the reader
+   runs, no data line, no header word and not the committed list ever changes, and everything the
+   reader is given from then on is exactly the (n_bytes, payload) found in memory at that moment at the
+   line it fetches; the missing half is that in reachable states those lines hold the committed
+   unread messages (sequentially: shm_seq_refines_fifo). *)
+Theorem shm_crash_safe_partial : forall P sched s, (forall tc, In tc sched -> fst tc = 0%nat) ->
+  let s' := exec csys (cstep P) s sched in
+  c_committed s' = c_committed s /\ c_w s' = c_w s /\
+  c_hN s' = c_hN s /\ c_hC s' = c_hC s /\ c_body s' = c_body s /\ c_overlap s' = c_overlap s /\
+  exists extra, c_delivered s' = c_delivered s ++ extra /\
+    Forall (fun d => exists ln, d = (ln, c_hN s ln, c_body s ln)) extra.
+Proof. intros P sched s H. exact (reader_only_frame P sched s H). Qed.
+Print Assumptions shm_crash_safe_partial.
+
+(* a reader step never touches writer-owned state and delivers only what the header at its read
+   cursor (or at line 0 after the marker) says: the reader's half of "each call linearises at its
+   single cursor load / store" *)
+Theorem shm_conc_inv_reachable_partial : forall P s s' l, rstep P s = Some (s', l) ->
+  c_committed s' = c_committed s /\ c_w s' = c_w s /\ c_crem s' = c_crem s /\
+  c_hN s' = c_hN s /\ c_hC s' = c_hC s /\ c_body s' = c_body s /\ c_ver s' = c_ver s /\
+  c_overlap s' = c_overlap s /\ c_wr s' = c_wr s /\
+  (c_delivered s' = c_delivered s \/
+   exists ln, c_delivered s' = c_delivered s ++ [(ln, c_hN s ln, c_body s ln)] /\ (ln = c_r s \/ ln = 0)).
+Proof. exact rstep_frame. Qed.
+Print Assumptions shm_conc_inv_reachable_partial.
